@@ -60,6 +60,15 @@ def funnel_cases(build):
                 if L < 32: continue
                 cases.append((f'x:{data.hex()} entry:{e}', decode_expect(data[:32]), f'{e} on a reader holding {L} bytes'))
             if L > 32: cases.append((f'x:{data.hex()} entry:deser_encoding', 'ok ' + data[:32].hex(), f'deser_encoding on a reader holding {L} bytes'))
+            if L in (32, 64):
+                i4 = pow(spec.ZETA, 1 << 45, Q); Bp = ref_B(); zi_ = pow(Bp[2], -1, Q); bx_, by_ = Bp[0] * zi_ % Q, Bp[1] * zi_ % Q
+                blobs = [data] + ([bytes.fromhex(le(x_) + le(y_)) for x_, y_ in ((i4, 0), (i4 * by_ % Q, i4 * bx_ % Q), (bx_, by_), (0, Q - 1), (2, 3))] if L == 64 else [])
+                for blob in blobs:
+                    for e in ('deser_affine_unc', 'deser_element_unc', 'deser_affine_unchecked', 'deser_element_unchecked'):
+                        cases.append((f'x:{blob.hex()} entry:{e}', ('re', r'^(refused|err |ok valid=true)'), f'{e} on {L} bytes may refuse but must not hand out an invalid element'))
+            if L < 32:
+                for e in ('deser_encoding', 'deser_element', 'deser_affine'):
+                    cases.append((f'x:{data.hex()} entry:{e}', ('re', r'^err '), f'{e} on a reader holding only {L} bytes must fail'))
     return cases
 
 def element_exprs(build):
@@ -135,7 +144,7 @@ def group_cases(build):
         for ks in ([], [3], [3, 5], [3, 5, 7], [2, 0, 9], [1, 1, 1, 1, 1]):
             prog = ' '.join(f'B {K(k)} mul' for k in ks)
             want = enc_of_mul(sum(ks))
-            for nm in ('sum', 'sum_ref', 'sum_aff', 'sum_aff_ref'):
+            for nm in ('sum', 'sum_ref', 'sum_aff', 'sum_aff_ref', 'sum_filter', 'sum_ref_filter', 'sum_takewhile'):
                 cases.append(((prog + ' ' if prog else '') + f'named:{nm} enc', want, f'{nm} over {ks}'))
         cases.append((f'B {K(7)} mul named:negate enc', enc_of_mul(R - 7), 'negate'))
         cases.append((f'B {K(7)} mul named:negate fenc', enc_of_mul(R - 7), 'negate then compress_to_field'))
@@ -430,6 +439,23 @@ def kernel_cases(build, obs=()):
             cases.append((f'modorder:{a.to_bytes(nb, "little").hex()}', ' '.join(le(int.from_bytes(a.to_bytes(nb, "little"), "little") % FIELDS[G], 48 if G == 'Fp' else 32) for G in ('Fq', 'Fr', 'Fp')), f'from_le_bytes_mod_order feeding {a} to {F} to_montgomery'))
     return cases
 
+def ord_cases(build, obs=()):
+    from .poly import FIELDS
+    cases = []
+    for F, f in (('Fq', 'q'), ('Fr', 'r'), ('Fp', 'p')):
+        p_ = FIELDS[F]; nb = 48 if F == 'Fp' else 32
+        push = lambda v: f'{f}.push:{le(v % p_, nb)}'
+        pairs = []
+        for o in obs:
+            m = o.model or {}
+            if m.get('kind') == 'ord' and m.get('field') == F and 'a' in m: pairs.append((m['a'], m['b']))
+        hi = (p_ >> 64) << 64
+        pairs += [(5, 7), (7, 5), (5, 5), (hi - 2 ** 64 + 3, hi - 2 ** 64 + 9), (2 ** 64 + 1, 2 ** 64 + 2), (2 ** 128 + 9, 2 ** 128 + 3), (1, 2 ** 64), (2 ** 64, 1), (p_ - 1, 0), (0, p_ - 1), ((p_ - 1) // 2, (p_ + 1) // 2), (2 ** 200, 2 ** 200 + 1)]
+        for a, b in pairs:
+            a %= p_; b %= p_
+            cases.append((f'{push(a)} {push(b)} {f}.cmp', 'Less' if a < b else ('Equal' if a == b else 'Greater'), f'{F}: cmp({a}, {b})'))
+    return cases
+
 def conversion_cases(build):
     from .poly import FIELDS
     cases = []
@@ -523,6 +549,13 @@ def r1cs_honest_cases(build):
             for init in '01': cases.append((f'r1cs:lazy,{"".join(seq)},{init},{le(7)}', 'sat=true values_ok=true stable=true', f'lazy forcing sequence {"".join(seq)} from init {init}'))
     for k in (1, 5, 5 * 1000003):
         for rep in '0123': cases.append((f'r1cs:iszero,{le(k)},{rep}', 'sat=true is_zero=true eq_zero=true native=true', f'P - P with the same element held in representation {rep}'))
+    for a, b in ((5, 7), (3, 11), (1, 1), (22, 25), (2, 9)):
+        for mode in ('addsub', 'constrep', 'constrep1'):
+            cases.append((f'r1cs:neq,{mode},{le(a)},{le(b)}', 'base=true native_equal=true not_equal_satisfied=false', f'enforce_not_equal on [{a}]B and the same element obtained as {mode} must be unsatisfiable'))
+        cases.append((f'r1cs:neq,other,{le(a)},{le(a + b)}', 'base=true native_equal=false not_equal_satisfied=true', f'enforce_not_equal on [{a}]B and [{a + b}]B is satisfiable'))
+    for k in (1, 2, 5, 7, 22):
+        for rep in '0123': cases.append((f'r1cs:constant,{le(k)},{rep}', 'value_ok=true sum_ok=true sat=true', f'ElementVar::constant([{k}]B in representation {rep}) and constant + witness'))
+    for a, b, c in ((3, 5, 0), (3, 5, 1), (0, 7, 1)): cases.append((f'r1cs:select,{le(a)},{le(b)},{c}', 'sat=true value_ok=true', f'conditionally_select({c}, [{a}]B, [{b}]B)'))
     return cases
 
 def r1cs_adversarial_cases(build, obs=()):
@@ -554,6 +587,17 @@ def r1cs_adversarial_cases(build, obs=()):
     for x, y in ((2, 3), (0, 0), (1, 1), (5, 0)): cases.append((f'r1cs:alloc,{le(x)},{le(y)}', 'sat=false', f'witness allocation with the off-curve coordinates ({x}, {y})'))
     B = ref_B()
     cases.append((f'r1cs:alloc,{le(2 * B[0] % Q)},{le(2 * B[1] % Q)}', 'sat=false', 'witness allocation with the scaled (off-curve) coordinates (2x, 2y) of the generator'))
+    # on-curve points outside the group: the 4-torsion point (i, 0) and its translates Q + (i, 0) = (i y, i x)
+    i4 = pow(spec.ZETA, 1 << 45, Q)          # zeta has order 2^47: zeta^(2^45) is a square root of -1
+    assert i4 * i4 % Q == Q - 1
+    zi = pow(B[2], -1, Q); bx, by = B[0] * zi % Q, B[1] * zi % Q
+    for x, y, what in ((i4, 0, 'the 4-torsion point (i, 0)'), (i4 * by % Q, i4 * bx % Q, 'the generator translated by (i, 0)'), (Q - i4, 0, 'the 4-torsion point (-i, 0)')):
+        cases.append((f'r1cs:alloc,{le(x)},{le(y)}', 'sat=false', f'Element witness allocation with the on-curve non-group coordinates of {what}'))
+        cases.append((f'r1cs:allocaff,{le(x)},{le(y)}', 'sat=false', f'AffinePoint witness allocation with the on-curve non-group coordinates of {what}'))
+    for x, y in ((2, 3), (1, 1)): cases.append((f'r1cs:allocaff,{le(x)},{le(y)}', 'sat=false', f'AffinePoint witness allocation with the off-curve coordinates ({x}, {y})'))
+    # the same invalid encoding allocated twice from a bare field element and compared
+    for s_ in (1, 2, 4, 6, 10, 12, 3, 5):
+        if decode_expect(le_bytes(s_)).startswith('err'): cases.append((f'r1cs:eqinvalid,{le(s_)}', 'sat=false native_valid=false', f'enforce_equal on two variables allocated from the invalid encoding {s_}'))
     return cases
 def shape_cases(build, obs=()):
     """C15: constraint-system shape of every gadget across structured inputs and in setup mode; public-input clause"""
@@ -570,9 +614,9 @@ BATTERIES = {
     'C15': shape_cases,
     'C13': lambda b: r1cs_honest_cases(b),
     'C14': r1cs_adversarial_cases,
-    'C16': lambda b: bls_cases(b),
+    'C16': lambda b, obs=(): ord_cases(b, obs) + bls_cases(b),
     'C10': lambda b, obs=(): kernel_cases(b, obs) + field_cases(b),
-    'C11': lambda b, obs=(): kernel_cases(b, obs) + conversion_cases(b),
+    'C11': lambda b, obs=(): kernel_cases(b, obs) + ord_cases(b, obs) + conversion_cases(b),
     'C12': lambda b, obs=(): kernel_cases(b, obs) + decode_cases(b) + encode_cases(b)[:300] + elligator_cases(b) + group_cases(b)[:200] + smul_cases(b)[:150] + coherence_cases(b)[:150] + const_cases(b) + field_cases(b)[:400] + conversion_cases(b),
     'C01': lambda b: roundtrip_cases(b),
     'C09': sqrt_cases,
@@ -604,10 +648,12 @@ def reproduce(prop, obs):
                 cases = bat(build, os_) if len(inspect.signature(bat).parameters) > 1 else bat(build)
                 if prop not in ('C10', 'C11', 'C12') and any('[field layer]' in o.name or (o.model or {}).get('kind') in ('kernel', 'w-u32') or o.name.startswith('K:') for o in os_):
                     # a candidate in the field layer below this property: scenarios aimed at the field operation come first
-                    cases = kernel_cases(build, os_) + field_cases(build) + conversion_cases(build) + cases
+                    cases = kernel_cases(build, os_) + ord_cases(build, os_) + field_cases(build) + conversion_cases(build) + cases
                 if build == 'ark' and any((o.model or {}).get('kind') in ('conversion', 'constructor', 'negate') for o in os_):
                     extra_c = [c for c in encode_cases(build) if any(t in c[0] for t in ('affref', 'affinto', 'elref', 'elval', 'gdouble', ' aff '))] + constructor_cases(build)
                     cases = extra_c + [c for c in cases if c not in extra_c]
+                if any((o.model or {}).get('kind') in ('funnel', 'funnel-panic') for o in os_):
+                    fc = funnel_cases(build); cases = fc + [c for c in cases if c not in fc]
                 for profile in ('dev', 'release') if common.tier() == 'thorough' else ('dev',):
                     hit = run_cases(build, cases, profile)
                     if hit: break
